@@ -75,6 +75,7 @@ Definition model_run (c : case) : res :=
   | OLocSorted => RPos (map (fun e => (e_chr e, e_start e)) (model_loc_sorted es))
   | OExtract st => model_extract s (cvals c) st es
   | OSeq st => model_seq (cvals c) st es
+  | OProg st ps k => model_prog s (cvals c) st es ps k
   end.
 Definition model_ok (c : case) : bool := res_eqb (k_obs c) (uncode_res (flags c) (model_run c)).
 
@@ -116,6 +117,10 @@ Definition spec_run (c : case) : expect :=
                                 | _ => false end)
   | OExtract st => placed c (RRows (spec_extract (cvals c) st es))
   | OSeq st => placed c (RRows (spec_seq (cvals c) st es))
+  | OProg st ps k => match spec_prog s (cvals c) st es ps k with
+                     | Some r => MustBe r
+                     | None => Rel (fun _ => true)
+                     end
   end.
 (* Rel predicates look at code-space rows: bring the observation's chromosome indices back to codes *)
 Definition code_res (fl : list bool) (r : res) : res :=
